@@ -29,7 +29,7 @@ def mentions(e, x):
     if isinstance(e, tuple):
         if e and e[0] == "id" and e[1] == x:
             return True
-        return any(mentions(c, x) for c in e[1:])
+        return any(mentions(c, x) for c in e)
     if isinstance(e, list):
         return any(mentions(c, x) for c in e)
     return False
@@ -71,7 +71,7 @@ def known_c01a(e):
                 return True
             if r[0] == "cmp" and len(r[2]) >= 2 and mentions(r, x):
                 return True
-    return any(known_c01a(c) for c in e[1:] if isinstance(c, (tuple, list)))
+    return any(known_c01a(c) for c in e if isinstance(c, (tuple, list)))
 
 
 def wrap_in_function(ast):
@@ -85,7 +85,7 @@ def with_extra_locals(ast, n):
 
 def has_fn(e):
     if isinstance(e, tuple):
-        return (e and e[0] in ("fn", "return")) or any(has_fn(c) for c in e[1:])
+        return (bool(e) and isinstance(e[0], str) and e[0] in ("fn", "return")) or any(has_fn(c) for c in e)
     if isinstance(e, list):
         return any(has_fn(c) for c in e)
     return False
